@@ -64,6 +64,8 @@ pub struct Model {
     pub faulty: bool,
     /// successful datagrams in order: (bytes, was a bypass write)
     pub datagrams: Vec<(Vec<u8>, bool)>,
+    /// the most recent attempt on the underlying writer ended in a panic of that writer
+    pub inner_panicked: bool,
 }
 
 fn tags(base: &[&'static str], faulty: bool) -> Vec<&'static str> {
@@ -85,6 +87,7 @@ impl Model {
             written: vec![],
             faulty,
             datagrams: vec![],
+            inner_panicked: false,
         }
     }
 
@@ -269,7 +272,7 @@ impl Model {
                 }
                 match res {
                     Res::Ok(_) => {
-                        if !self.pending.is_empty() && !(*call == Call::Drop && failed) {
+                        if !self.pending.is_empty() && !(*call == Call::Drop && (failed || self.inner_panicked)) {
                             self.breach(
                                 &mut out,
                                 &["C06"],
